@@ -25,6 +25,7 @@ from demeter import (  # the code under test, imported from the /repo working tr
 )
 
 ID = "C18"
+ENV_TZ_RATE = 0.12  # this is the property about clock times: the host zone is varied more often than elsewhere
 INTERVALS = {1: "1min", 2: "2min", 5: "5min", 15: "15min", 60: "1h"}
 MINUTES_OF = {v: k for k, v in INTERVALS.items()}
 MINUTES_OF["60min"] = 60
@@ -339,6 +340,9 @@ def generate(seed: int, tier: str = "quick") -> dict:
         bar, phase = -1, "initialize"
         if kind not in ("period", "periods") and rp.random() < 0.12:
             bar, phase = rp.randint(0, nb - 1), "before_bar"  # installed while the run is under way
+        elif rp.random() < 0.15:
+            # attached before run() is called (in the strategy's constructor, or by the script that assembled the actuator)
+            bar, phase = -2, "pre_run"
         if rp.random() < 0.3:
             spec["how"] = "reassign"
         if rp.random() < 0.3:
@@ -415,6 +419,8 @@ class TriggerOracle(Oracle):
             sim.count("fault:" + ft)
         if spec.get("how") == "reassign":
             sim.count("fault:installed_by_list_reassignment" + (":mid_run" if o["bar"] >= 0 else ""))
+        if o["phase"] == "pre_run":
+            sim.count("fault:installed_before_run_is_called")
 
     # -- retirement, observed after the loop's filter of every bar
     def phase(self, sim, bar, phase, pos):
@@ -634,7 +640,8 @@ ASSUMPTIONS = [
     "a time that is not a bar timestamp denotes no bar (fired set = denoted instants intersected with the bar grid); ranges "
     "select the bars whose timestamp lies in [start, end)",
     "a time given with a seconds part denotes its minute (the constructors document that they set the seconds to 0; the bar clock has minute resolution); lists of times / ranges / periods are non-empty; periods are >= one bar",
-    "T0 of a period trigger is the timestamp of the first bar of the run (period triggers are installed in initialize); "
+    "T0 of a period trigger is the timestamp of the first bar of the run (period triggers are installed in initialize, or "
+    "attached to the strategy before run() is called, as a constructor or the assembling script would); "
     "only time and range triggers are also installed mid-run, where bars before the installation are not denoted; triggers are "
     "installed by appending to strategy.triggers or by assigning a new list to it, and some are later taken off again by the "
     "strategy (in place or by assignment, from before_bar / on_bar / after_bar): the bar's trigger evaluation lies between "
